@@ -86,7 +86,7 @@ def main(tier, replay=None):
     run.extra['tlc_cases'] = len(cases)
     rng = random.Random(run.seed)
     cases += [rand_case(rng) for _ in range(4000 if quick else 100000)]
-    obs = fncases.observe(lib, cases, ranges=True)
+    obs = fncases.observe(lib, cases, ranges=True, twins=True)
     # the host edits its table in place between two evaluations of the same call
     mo = fncases.observe_after_mutation(lib, [c for c in cases if c['f'] in ('INDEX', 'MATCH')][:1500 if quick else 40000])
     run.extra['evaluations_after_in_place_edit'] = len(mo)
